@@ -73,6 +73,12 @@ CLAIMS = {
         technique="source-to-Coq translation + vm_compute obligations generic in the attribute valuation + execution on six hosts with in-Coq correspondence",
         design="7/C16",
     ),
+    "C20": dict(
+        text="PARTIAL proof + differential execution against the real dis. Proved in Coq: for every host 3.8-3.13 (its dis._get_code_object translated from its own dis.py on every run) and EVERY object tree without a func_code attribute, xdis's get_code_object (translated from /repo) returns the same code object or raises TypeError exactly as dis does (chain-equivalence checker with a proved soundness lemma); the first_line shift is dis's rule. The decoders behind the API are C02/C03/C04/C05/C09/C17. Executed on all six hosts: xdis.std vs the host's own dis on functions, closures, methods, lambdas, generators, coroutines, async generators, code objects, module code and source strings - get_instructions and Bytecode with and without first_line (opcode, opname, arg, offset, is_jump_target, starts_line, table/jump argval), findlabels, findlinestarts, opmap/opname/hasconst/hasname/HAVE_ARGUMENT/EXTENDED_ARG; make_std_api(v) on files compiled by v compared between host v and other hosts. The model's coercion outcomes and shifted lines are compared with the implementation inside Coq.",
+        note="Trusted: Coq kernel; fail-closed AST translator tools/translate/stdapi.py; the hosts' dis as oracle; harness object zoo (tools/harness/ops_std.py). CACHE pseudo-instructions excluded from the comparison. Known findings D40/D41 (3.13-only: is_jump_target at exception-range boundaries; WITH_EXCEPT_START arg None). No axioms.",
+        technique="source-to-Coq translation + Coq proof (checker soundness by induction) + differential execution against dis on six hosts",
+        design="7/C20",
+    ),
     "C19": dict(
         text="Machine-checked Coq proofs of the round-trip law for the three freeze() encoders, for EVERY mapping with offsets strictly increasing from 0 and consecutive lines different, offset and line gaps unbounded (continuation entries are induction cases): findlinestarts(decode) of Code3/Code38's table (signed, any decreasing lines), of Code15/Code2's table (lines increasing; reads back under both the unsigned and the signed rule), and of Code310's range table (via co_lines()) returns the mapping. By the C05 theorems the decoders used are CPython's. Encoder models tied to /repo by in-Coq correspondence (dict and list inputs, boundary gaps); model-made tables are additionally decoded by the real 2.7, 3.6-3.10.",
         note="Trusted: Coq kernel; hand model coq/Model/Freeze.v (while-loops as closed forms) + correspondence harness; C05 decoder theorems and spec validation. Hypotheses stated in the theorems: offsets start at 0, lie inside co_code, consecutive lines differ; for 1.5-2.7 lines do not decrease. No axioms.",
